@@ -111,7 +111,12 @@ def est_jobs(ctx, lib, info, n):
             lo, hi = max(r[0] for r in rs), min(r[1] for r in rs)
             Ts = sorted(set([lo, hi, round(lo - 1e-6, 7), round(hi + 1e-6, 7), lo - 40.0, hi + 777.0, 0.0, -10.0,
                              round((lo + hi) / 2, 2)]))
-        jobs.append({'op': 'estimate', 'lib': lib, 'mapping': [[g['name'], c01.rnd_count(rng) or 1] for g in sel],
+        counts = [c01.rnd_count(rng) for g in sel]      # zero counts included: a zero-weight constituent still bounds the range
+        if rs and rng.random() < 0.3:
+            # the constituent that bounds the common range gets weight zero
+            k = rng.choice([i for i, g in enumerate(sel) if g.get('range') and (g['range'][0] == lo or g['range'][1] == hi)])
+            counts[k] = rng.choice([0, 0.0])
+        jobs.append({'op': 'estimate', 'lib': lib, 'mapping': [[g['name'], c] for g, c in zip(sel, counts)],
                      'Ts': Ts, 'props': ('cp', 'h', 's', 'g'), 'sel': [g['name'] for g in sel]})
     return jobs
 
